@@ -82,6 +82,20 @@ Qed.
 Lemma movmsk_small16 (v : list Z) : length v = 16%nat -> movmsk v mod two32 = movmsk v.
 Proof. intros H. pose proof (movmsk_range v) as R. rewrite H in R. change (2 ^ Z.of_nat 16) with 65536 in R. unfold two32. lia. Qed.
 
+(* SHLL len; SHRL 16 on the mask of [16-len stray bytes ++ s]: a separate lemma, because lia would pick this
+   non-linear fact up from the context of the stepping proof and not come back *)
+Lemma shift_mask (J : list Z) : 1 <= len <= 15 -> length J = (16 - length s)%nat ->
+  ((movmsk (J ++ s) mod two32 * 2 ^ (len mod two32 mod 32) mod two32) mod two32 / 2 ^ (16 mod two64 mod 32)) mod two32 = movmsk s.
+Proof.
+  intros Hl LJ0. set (n := length s) in *. assert (Hn : len = Z.of_nat n) by reflexivity.
+  pose proof (movmsk_range s) as Rs. fold n in Rs. pose proof (movmsk_range J) as RJ. rewrite LJ0 in RJ.
+  assert (Emsk : movmsk (J ++ s) = movmsk J + 2 ^ Z.of_nat (16 - n) * movmsk s) by (rewrite movmsk_app, LJ0; reflexivity).
+  change (16 mod two64) with 16. replace (len mod two32) with (Z.of_nat n) by (unfold two32; lia).
+  rewrite Emsk. clear Emsk. rewrite (shift_out_junk (movmsk J) (movmsk s) n) by lia.
+  assert (H15 : 2 ^ Z.of_nat n <= 2 ^ 15) by (apply Z.pow_le_mono_r; lia). change (2 ^ 15) with 32768 in H15.
+  apply Z.mod_small. unfold two32. lia.
+Qed.
+
 (* lengths below 16 *)
 Lemma small_path ax cx dx di r9 r10 r11 r12 r13 r14 r15 x0 x1 x2 x3 x4 x5 x6 x7 :
   len < 16 ->
@@ -111,13 +125,6 @@ Proof.
     assert (LJ : length (J ++ s) = 16%nat) by (rewrite app_length; unfold J; rewrite bytes_at_length; lia).
     assert (LJ0 : length J = (16 - n)%nat) by (unfold J; apply bytes_at_length).
     pose proof (movmsk_range s) as Rs. fold n in Rs. pose proof (movmsk_range J) as RJ. rewrite LJ0 in RJ.
-    (* kept under [id] so that the later calls of lia do not pick this non-linear fact up *)
-    assert (Hshift : id (((movmsk (J ++ s) mod two32 * 2 ^ (len mod two32 mod 32) mod two32) mod two32 / 2 ^ (16 mod two64 mod 32)) mod two32 = movmsk s)).
-    { unfold id. assert (Emsk : movmsk (J ++ s) = movmsk J + 2 ^ Z.of_nat (16 - n) * movmsk s) by (rewrite movmsk_app, LJ0; reflexivity).
-      change (16 mod two64) with 16. replace (len mod two32) with (Z.of_nat n) by (unfold two32; lia).
-      rewrite Emsk. clear Emsk. rewrite (shift_out_junk (movmsk J) (movmsk s) n) by lia.
-      assert (H15 : 2 ^ Z.of_nat n <= 2 ^ 15) by (apply Z.pow_le_mono_r; lia). change (2 ^ 15) with 32768 in H15.
-      apply Z.mod_small. unfold two32. lia. }
     destruct (Z.eq_dec (movmsk s) 0) as [Mz|Mnz].
     + exists 16%nat. xstep. rewrite holds_cmp_LT by (unfold two63; lia). replace (len <? 16) with true by lia. cbv iota.
       xstep. xstep. cbn [holds zf]. rewrite Z.land_diag. replace (len =? 0) with false by lia. cbv iota.
@@ -125,7 +132,7 @@ Proof.
       xstep. xstep. cbn [holds zf]. rewrite testw_page by lia. replace ((16 + A + 0) mod 4096 <? 16) with true by lia. cbv iota.
       xstep. rewrite (load_bytes A s junk 16 _ Hrd), Eb. cbv iota.
       xstep. xstep. rewrite (vlow_vput 16 _ _ LJ).
-      xstep. xstep. xstep. xstep. unfold id in Hshift. rewrite Hshift, Mz. clear Hshift. change (0 =? 0) with true. cbv iota.
+      xstep. xstep. xstep. xstep. rewrite (shift_mask J) by (try exact LJ0; lia). rewrite Mz. change (0 =? 0) with true. cbv iota.
       xstep. cbn [holds zf]. cbv iota.
       xstep. replace (0 + slot + 0 =? slot) with true by lia. cbv iota. rewrite store_m1. xstep.
       f_equal. f_equal. symmetry. apply movmsk_zero. exact Mz.
@@ -138,7 +145,7 @@ Proof.
       xstep. xstep. cbn [holds zf]. rewrite testw_page by lia. replace ((16 + A + 0) mod 4096 <? 16) with true by lia. cbv iota.
       xstep. rewrite (load_bytes A s junk 16 _ Hrd), Eb. cbv iota.
       xstep. xstep. rewrite (vlow_vput 16 _ _ LJ).
-      xstep. xstep. xstep. xstep. unfold id in Hshift. rewrite Hshift. clear Hshift. replace (movmsk s =? 0) with false by lia. cbv iota. rewrite Hbsf.
+      xstep. xstep. xstep. xstep. rewrite (shift_mask J) by (try exact LJ0; lia). replace (movmsk s =? 0) with false by lia. cbv iota. rewrite Hbsf.
       xstep. cbn [holds zf]. cbv iota.
       xstep. replace (0 + slot + 0 =? slot) with true by lia. cbv iota. xstep.
       f_equal. f_equal. unfold signed64, two63. replace (fh s <? 9223372036854775808) with true by lia. reflexivity.
